@@ -36,25 +36,25 @@ Proof. exists (m33_id ROps, (1,0,0)), ((0,0,1),(0,0,0)). split; [ apply rot_id |
 
 (** ** independent coordinates: Cylinder, Planar.  Rotation and translation (angular and linear velocity) fits touch
     disjoint coordinates, commute, and together are the transform (velocity) fit, whatever the starting values *)
-Lemma Cylinder_partial_fits X q : Cylinder_fitT (snd X) (Cylinder_fitR ROps (fst X) q) = Cylinder_fitX ROps X
+Lemma Cylinder_partial_fits (X : Transform R) (q : Vec2 R) : Cylinder_fitT (snd X) (Cylinder_fitR ROps (fst X) q) = Cylinder_fitX ROps X
   /\ Cylinder_fitR ROps (fst X) (Cylinder_fitT (snd X) q) = Cylinder_fitX ROps X.
 Proof. destruct q. split; reflexivity. Qed.
-Lemma Cylinder_partial_vel V u : Cylinder_fitLV (snd V) (Cylinder_fitW (fst V) u) = Cylinder_fitV V
+Lemma Cylinder_partial_vel (V : SpatialVec R) (u : Vec2 R) : Cylinder_fitLV (snd V) (Cylinder_fitW (fst V) u) = Cylinder_fitV V
   /\ Cylinder_fitW (fst V) (Cylinder_fitLV (snd V) u) = Cylinder_fitV V.
 Proof. destruct u. split; reflexivity. Qed.
-Lemma Cylinder_fitR_keeps_translation R q : snd (Cylinder_X ROps (Cylinder_fitR ROps R q)) = snd (Cylinder_X ROps q).
+Lemma Cylinder_fitR_keeps_translation (M : Mat33 R) (q : Vec2 R) : snd (Cylinder_X ROps (Cylinder_fitR ROps M q)) = snd (Cylinder_X ROps q).
 Proof. destruct q. reflexivity. Qed.
-Lemma Cylinder_fitT_keeps_rotation p q : fst (Cylinder_X ROps (Cylinder_fitT p q)) = fst (Cylinder_X ROps q).
+Lemma Cylinder_fitT_keeps_rotation (p : Vec3 R) (q : Vec2 R) : fst (Cylinder_X ROps (Cylinder_fitT p q)) = fst (Cylinder_X ROps q).
 Proof. destruct q. reflexivity. Qed.
-Lemma Planar_partial_fits X q : Planar_fitT (snd X) (Planar_fitR ROps (fst X) q) = Planar_fitX ROps X
+Lemma Planar_partial_fits (X : Transform R) (q : Vec3 R) : Planar_fitT (snd X) (Planar_fitR ROps (fst X) q) = Planar_fitX ROps X
   /\ Planar_fitR ROps (fst X) (Planar_fitT (snd X) q) = Planar_fitX ROps X.
 Proof. destruct q as [[? ?] ?]. split; reflexivity. Qed.
-Lemma Planar_partial_vel V u : Planar_fitLV (snd V) (Planar_fitW (fst V) u) = Planar_fitV V
+Lemma Planar_partial_vel (V : SpatialVec R) (u : Vec3 R) : Planar_fitLV (snd V) (Planar_fitW (fst V) u) = Planar_fitV V
   /\ Planar_fitW (fst V) (Planar_fitLV (snd V) u) = Planar_fitV V.
 Proof. destruct u as [[? ?] ?]. split; reflexivity. Qed.
-Lemma Planar_fitR_keeps_translation R q : snd (Planar_X ROps (Planar_fitR ROps R q)) = snd (Planar_X ROps q).
+Lemma Planar_fitR_keeps_translation (M : Mat33 R) (q : Vec3 R) : snd (Planar_X ROps (Planar_fitR ROps M q)) = snd (Planar_X ROps q).
 Proof. destruct q as [[? ?] ?]. reflexivity. Qed.
-Lemma Planar_fitT_keeps_rotation p q : fst (Planar_X ROps (Planar_fitT p q)) = fst (Planar_X ROps q).
+Lemma Planar_fitT_keeps_rotation (p : Vec3 R) (q : Vec3 R) : fst (Planar_X ROps (Planar_fitT p q)) = fst (Planar_X ROps q).
 Proof. destruct q as [[? ?] ?]. reflexivity. Qed.
 
 (** ** Screw: one coordinate for both.  The translation fit reproduces the pose (Screw_fit_roundtrip); the rotation fit
@@ -87,11 +87,11 @@ Proof. exists PI, 1, 0. cbv zeta. unfold BendStretch_fitT, zangle. rewrite npi_i
   rewrite E. replace (PI - 0) with PI by ring. rewrite cos_PI.
   unfold Rleb. destruct (Rle_dec 0 (-1)); [lra|]. cbn [snd].
   replace (-1 * -1 + 0 * 0) with 1 by ring. rewrite sqrt_1.
-  cbv [BendStretch_X RotZ Rz ncos nsin ROps]. rewrite cos_PI, sin_PI. vunf. intros C. injection C; intros. lra. Qed.
+  cbv [BendStretch_X RotZ Rz ncos nsin ROps]. rewrite ?cos_PI, ?sin_PI. vunf. intros C. injection C; intros. lra. Qed.
 (** angular fit then linear fit is the velocity fit *)
-Lemma BendStretch_partial_vel q V u : snd q <> 0 ->
+Lemma BendStretch_partial_vel (q : Vec2 R) (V : SpatialVec R) :
   BendStretch_fitLV ROps q (snd V) = BendStretch_fitV ROps q V.
-Proof. intros _. destruct V as [w v]. reflexivity. Qed.
+Proof. destruct V as [w v]. reflexivity. Qed.
 
 (** ** two-angle extraction (Rotation::convertTwoAxesBodyFixedRotationToTwoAngles): Universal and SphericalCoords *)
 Lemma half_sgn x w : w = x*x -> (x + (if Rltb 0 x then 1 else - 1) * sqrt w) / (1 + 1) = x.
@@ -167,10 +167,9 @@ Proof. exists (5,5,12), 0. rewrite Ell_fitT_axis. unfold Ell_latlong. cbv [v3_0 
 Lemma Ell_fitLV_sphere_roundtrip a R u0 u1 u2 : a <> 0 -> is_rot R ->
   Ell_fitLV ROps (a,a,a) R (u0,u1,u2) (snd (Hu ROps (Ell_H ROps (a,a,a) R) (u0 :: u1 :: u2 :: nil))) = (u0,u1,u2).
 Proof. intros Ha HR. pose proof (Ell_fitV_prefix_sphere_roundtrip a R u0 u1 u2 Ha HR) as E. unfold Ell_fitLV.
-  replace (Ell_fitV_prefix ROps (a,a,a) R ((u0,u1,u2), snd (Hu ROps (Ell_H ROps (a,a,a) R) (u0 :: u1 :: u2 :: nil))))
-    with (Ell_fitV_prefix ROps (a,a,a) R (Hu ROps (Ell_H ROps (a,a,a) R) (u0 :: u1 :: u2 :: nil))); auto.
-  f_equal. rewrite (surjective_pairing (Hu ROps (Ell_H ROps (a,a,a) R) (u0 :: u1 :: u2 :: nil))) at 1. f_equal.
-  apply (Ell_fitU_roundtrip (a,a,a) R u0 u1 u2). Qed.
+  set (V := Hu ROps (Ell_H ROps (a,a,a) R) (u0 :: u1 :: u2 :: nil)) in *.
+  assert (F : fst V = (u0,u1,u2)) by (apply (Ell_fitU_roundtrip (a,a,a) R u0 u1 u2)).
+  rewrite <- F at 1. rewrite <- surjective_pairing. exact E. Qed.
 Lemma Ell_fitLV_nonsphere_refuted : exists r R u, is_rot R /\
   let V := Hu ROps (Ell_H ROps r R) (v3_0 u :: v3_1 u :: v3_2 u :: nil) in
   snd (Hu ROps (Ell_H ROps r R) (let w := Ell_fitLV ROps r R u (snd V) in v3_0 w :: v3_1 w :: v3_2 w :: nil)) <> snd V.
